@@ -405,7 +405,7 @@ class _ScopeContext:
         check_all_param = self.check_all_param
         first_iter = ast.generators[0].iter
 
-        gen = fst_.walk(all, self_=False, back=back)  # no scope=True here because we do it manually
+        gen = fst_.walk(True, self_=False, back=back)  # no scope=True here because we do it manually, all=True because we need to see the nodes below even if they are filtered out by `all`
 
         for f in gen:  # we want to return all NamedExpr.target and first top-level .iter, yeah, its ugly
             a = f.a
@@ -413,11 +413,12 @@ class _ScopeContext:
             if a is first_iter:  # first generator iterator is in parent scope
                 subrecurse = 1  # wouldn't be here if recurse is not True, 1 to differentiate from True
 
-                while (sent := (yield f)) is not None:
-                    subrecurse = sent
+                if check_all_param(f):
+                    while (sent := (yield f)) is not None:
+                        subrecurse = sent
 
-                if not (a := f.a):  # node was removed while yielded (probably along with a parent), nothing to recurse into
-                    continue
+                    if not (a := f.a):  # node was removed while yielded (probably along with a parent), nothing to recurse into
+                        continue
 
                 if subrecurse is True:  # user did send(True) so walk unconditionally
                     yield from f.walk(all, self_=False, back=back)  # if the user did send(True) (subrecurse=True) then we want to recurse uncondintionally (scope=False), otherwise subrecurse=1 and continue walking with scope=True
@@ -444,8 +445,9 @@ class _ScopeContext:
             ):
                 subrecurse = True
 
-                while (sent := (yield f)) is not None:
-                    subrecurse = sent
+                if check_all_param(f):
+                    while (sent := (yield f)) is not None:
+                        subrecurse = sent
 
                 if subrecurse and (a := f.a) and check_all_param(f := a.ctx.f):  # truly pedantic, but maybe the user really really really wants that .ctx? re-read `a` because node may have been replaced or removed while yielded
                     while (yield f) is not None:  # eat all the user's send()s
